@@ -163,6 +163,9 @@ func c01FTM(vals []time.Duration) (lo, hi time.Duration) {
 }
 
 func c01World(t *testing.T, r *simcore.Run) any {
+	if r.Index%8 == 7 {
+		return c01WiredWorld(r) // the real wiring of timeservice.go against real listeners
+	}
 	activate(r)
 	resetProm()
 	tp := r.Tape
